@@ -409,6 +409,7 @@ type regOut struct {
 	Absent  bool
 	Err     bool
 	Garbage bool
+	ErrText string
 }
 
 // strictRegister: Get must return the current value; ErrNotExist iff absent.
@@ -527,6 +528,7 @@ func concurrentHistory(conn driver.Conn, nkeys, nclients, opsPer int, seed uint6
 						out.Absent = true
 					case err != nil:
 						out.Err = true
+						out.ErrText = err.Error()
 					default:
 						id, intact := ParseValue(v)
 						out.Val = id
